@@ -405,7 +405,7 @@ func c02LaneFiles(t *testing.T, r *sim.Run) {
 		}
 		if T.Intn(3, "labeled") == 0 {
 			a.labeled = true
-			a.label = fmt.Sprintf("L%d", T.Intn(2, "labelname"))
+			a.label = []string{"L0", "L1", "go1.21/old", "a/b/c", "x.y", "é"}[T.Intn(6, "labelname")]
 			a.arg = a.label + "=" + a.path
 		} else {
 			a.arg = a.path
